@@ -232,6 +232,29 @@ def handle (line : String) : String :=
     match decodeText h, ind.toInt?, parseStyle styleFields with
     | some v, some i, some sty => (match Model.stringIdent v i sty with | .ok ps => "ok " ++ showPieces ps | .error e => "err " ++ showPyErr e)
     | _, _, _ => "bad-op"
+  | "mpass" :: pass :: ph :: styleFields =>
+    -- one layout pass on an arbitrary piece list (pieces in the `showPieces` format, blank-separated, `-` for the empty list)
+    let parsePiece (w : String) : Option Model.Piece :=
+      if w.startsWith "S" then (decodeText (w.drop 1).toString).map Model.Piece.str
+      else match w with
+        | "stmt" => some (.sep .statement) | "newline" => some (.sep .newline) | "arg" => some (.sep .argument) | "space" => some (.sep .space)
+        | "dot" => some (.sep .dot) | "indent" => some (.sep .indent) | "deindent" => some (.sep .deindent) | "block" => some (.sep .block)
+        | _ => none
+    let pieces : Option Model.Pieces := if ph == "-" then some [] else (ph.splitOn " ").mapM parsePiece
+    match pieces, parseStyle styleFields with
+    | some ps, some sty =>
+      let showR (r : Except Model.PyErr Model.Pieces) : String :=
+        match r with | .ok x => "ok " ++ showPieces x | .error e => "err " ++ showPyErr e
+      match pass with
+      | "remove" => showR (Model.removeSeparators ps)
+      | "brackets" => showR (Model.indentBrackets ps sty)
+      | "spacing" => showR (Model.addSpacing ps sty)
+      | "orphans" => "ok " ++ showPieces (Model.removeOrphaned ps)
+      | "resolve" => showR (Model.resolveTokens sty ps)
+      | "indent" => showR (Model.indentLoop sty.indentation ps 0 false)
+      | "join" => "ok " ++ hexOfText (Model.joinTokens ps)
+      | _ => "bad-op"
+    | _, _ => "bad-op"
   | ["numval", h] =>
     match decodeText h with
     | none => "bad-op"
